@@ -2,9 +2,11 @@
 
 Histories of operations on one future of every kind, run on the real classes; the Lean model
 (AsynqModel.Lib.Futures) replays the same history (correspondence) and the Lean observer `Futures.spec`
-(the statement of C10; proved of the model for all kinds and all histories in which no subscriber raises an
-un-printable exception - C10_spec_holds_partial; the excluded histories are an OPEN FINDING the check reports with the
-signature "subscriber-exception-escapes") judges the implementation's observations on their own.  Families judged by direct expectations in the driver (no model run): suspended, futsubs
+(the statement of C10; proved of the model for all kinds and all histories in which no subscriber raises an exception
+that defeats qcore.safe_repr - C10_spec_holds, hypothesis noWorseOps; the excluded histories are the OPEN FINDING
+"subscriber-repr-error-escapes": fix 591bc3e made FutureBase._computed print safe_repr(e), which swallows what repr(e)
+raises but not what FORMATTING that exception raises; the earlier finding "subscriber-exception-escapes" - repr(e) raising
+anything - is fixed and a regression of it is reported as a violation) judges the implementation's observations on their own.  Families judged by direct expectations in the driver (no model run): suspended, futsubs
 (notification rounds of batches / items / blocking tasks, across threads, with debug options switched in mid-flight),
 futcopy (copies of ConstFuture / ErrorFuture).  Round 5: the error OBJECT (tokens 8..13 = exceptions that mean something to the
 library, e.g. a genuine FutureIsAlreadyComputed about another future raised by a provider) and the ROUTE by which a provider /
@@ -21,6 +23,7 @@ LEAN_MODULES = ["AsynqModel.Theorems.C10"]
 HEADLINE = [
     "AsynqModel.Futures.C10_spec_holds",
     "AsynqModel.Futures.C10_statsOk_needed",
+    "AsynqModel.Futures.C10_subscriber_repr_error_counterexample",   # the open finding in the model; necessity of noWorseOps
     "AsynqModel.Futures.C10_spec_enforces_runs",
     "AsynqModel.Futures.C10_spec_enforces_outcome",
     "AsynqModel.Futures.C10_spec_enforces_read",
@@ -38,7 +41,8 @@ HEADLINE = [
     "AsynqModel.Futures.C10_subs_after_completion",
     "AsynqModel.Futures.C10_passive_subs_stay",
     "AsynqModel.Futures.C10_unsubscribed_not_notified",
-    "AsynqModel.Futures.C10_printable_exceptions_swallowed",
+    "AsynqModel.Futures.C10_printable_exceptions_swallowed",   # induction over the walk of the snapshot (subEscapes has content again)
+    "AsynqModel.Futures.C10_first_exception_decides",
     "AsynqModel.Futures.C10_completer_result",
     "AsynqModel.Futures.C10_raising_subscribers_swallowed",
     "AsynqModel.Futures.C10_hook_failure_after_notification",
@@ -58,8 +62,10 @@ RULE = ("random operation histories (length 1-40, ops value/error/call/is_comput
         "subscribe/unsubscribe) on each future kind (Future ok/raising/self-completing provider, ConstFuture, ErrorFuture, "
         "AsyncTask returning/raising without blocking); error token 0 = None: set_error(None) (about 1 in 8 set_error "
         "operations) and ErrorFuture(None) (1 in 8 ErrorFutures); a subscriber is well-behaved, raising (three exception classes), "
-        "raisingBad (raises an Exception whose repr() raises; about 1 in 14 subscribers of the one-future histories, never in "
-        "family futsubs), one-shot "
+        "raisingBad (raises an Exception whose repr() raises; about 1 in 20 subscribers of the one-future histories, never in "
+        "family futsubs), raisingWorse (raises an Exception whose repr() raises an Exception whose str() raises - the input "
+        "class of the open finding subscriber-repr-error-escapes; about 1 in 40 subscribers of the one-future histories, "
+        "every pair with every other behaviour in family behpair, corpus replay; never in family futsubs), one-shot "
         "(unsubscribes itself while notified), unsubscribes another handler (earlier, later, itself, unknown), subscribes "
         "a new handler, or re-enters set_value/set_error; value and error tokens stand for exotic objects (None, 0, '', False, "
         "__eq__-always-true, an exception instance as a value, a future as a value, the future itself, an object whose "
@@ -86,6 +92,11 @@ RULE = ("random operation histories (length 1-40, ops value/error/call/is_comput
         "completed target (the computed branch of the observer judges them); suspended: inside a scoped-value override / a user "
         "AsyncContext, options switched on while suspended; family 'futcopy' = ConstFuture / ErrorFuture / none_future "
         "constructed by copy.copy, copy.deepcopy, pickle protocols 0-5, __reduce__ (10 values). "
+        "Third-audit repair: futsubs family 'link' = a user batch of 2-4 items cancelled (with / without error; watched: an item "
+        "or the batch) while an on_computed handler of one item - every ordered pair (source, destination) - completes a still "
+        "pending sibling (value / error), tries set_value / flush() on the batch itself or cancels it during the batch's "
+        "completion sweep (seeded change C10-12; the sweeps after a raising / forgetful flush with such handlers are C11's "
+        "`link` handlers); 10 % of the random futsubs cases on the four cancel targets get such a handler. "
         "Round 5: error tokens 8..13 = exception objects with a meaning to the library (a genuine FutureIsAlreadyComputed raised by "
         "a refused set_value on ANOTHER future, AsyncTaskCancelledError, BatchCancelledError, a second-hand error that already "
         "failed another AsyncTask and carries _task/_type_/_traceback, AttributeError, TypeError) - raised by providers and task "
@@ -101,7 +112,17 @@ TRUSTED = [
     "qcore.EventHook.safe_trigger, CPython generator semantics, threading / gc / copy / pickle of the standard library",
 ]
 ASSUMPTIONS = [
-    "callbacks raise only Exception (BaseException from a subscriber is out of the statement's scope)",
+    "callbacks raise only Exception (BaseException from a subscriber is out of the statement's scope); the Exception may be "
+    "un-printable: repr() raising (swallowed since 591bc3e) and repr() raising an Exception whose str() raises (OPEN FINDING "
+    "subscriber-repr-error-escapes: generated, modelled, rejected by the observer, C10_subscriber_repr_error_counterexample; "
+    "hypothesis noWorseOps of C10_spec_holds); repr() of the subscriber's exception raising a BaseException-only error is out of scope",
+    "a task body that raises a SUBCLASS of AsyncTaskCancelledError / AsyncTaskResult (or GeneratorExit or a subclass of it) ends "
+    "with the VALUE None: AsyncTask._continue (async_task.py:197-205) catches `except GeneratorExit` and then compares "
+    "type(error) EXACTLY (`is AsyncTaskResult` / `is AsyncTaskCancelledError`), everything else falls to _queue_exit(None) - "
+    "probed: class MyCancel(AsyncTaskCancelledError) raised by a body gives value() None twice, error() None, one notification. "
+    "Not generated (token 9 is an exact AsyncTaskCancelledError) and NOT a violation of C10's text: the outcome is set once, "
+    "announced once and reported consistently; C10 does not say WHICH outcome a body that raises a control-flow exception has "
+    "(the observer's clause compute-outcome pins err e for the generated Exception classes and exact AsyncTaskCancelledError only)",
     "WHICH Exception a provider raises is not restricted (the statement says 'providers that return or raise'): library-made "
     "exception objects (FutureIsAlreadyComputed about another future, BatchCancelledError, an error that already failed a task) "
     "are generated; a task body raising plain GeneratorExit / AsyncTaskResult is NOT generated (AsyncTask._continue gives them "
@@ -141,7 +162,8 @@ ASSUMPTIONS = [
     "('complete from construction'); a deep copy / unpickled copy of an UNCOMPUTED Future is outside the statement; THAT a "
     "copy can be made at all (verdict copy-fails) is a precondition the harness checks, not part of the statement",
     "families futsubs / suspended / futcopy are judged by direct expectations (no model run, no theorem); futsubs never "
-    "uses a subscriber whose exception cannot be printed (the open finding is shown on the one-future kinds only)",
+    "uses a subscriber whose exception cannot be printed (the open finding subscriber-repr-error-escapes is shown on the "
+    "one-future kinds only)",
 ]
 KINDS = ["lazyOk", "lazyErr", "const", "error", "taskOk", "taskErr", "lazySelfSet"]
 OPS = ["value", "error", "call", "isComputed", "setValue", "setError", "reset", "subscribe", "unsubscribe",
@@ -202,8 +224,10 @@ def gen_beh(rng, own, known, fresh, bad=True):
         return ["good"]
     if r < 0.51 or (r < 0.58 and not bad):
         return ["raising"]
-    if r < 0.58:
+    if r < 0.555:
         return ["raisingBad"]
+    if r < 0.58:
+        return ["raisingWorse"]
     if r < 0.73:
         return ["oneShot"]
     if r < 0.85:
@@ -432,7 +456,42 @@ def subs_case(rng, target, n, thread=None, optswhen=None):
         case["optswhen"] = optswhen or rng.choice(OPTSWHEN)
     if rng.random() < 0.08:
         case["weak"] = True
+    if target in LINK_TARGETS and case["nitems"] >= 2 and rng.random() < 0.1:
+        w = case["which"] % case["nitems"]
+        dsts = [d for d in range(case["nitems"]) if target.startswith("batch-") or d != w]
+        dst = rng.choice(dsts)
+        case["link"] = [rng.choice(LINK_HOWS), rng.choice([x for x in range(case["nitems"]) if x != dst]), dst]
     return case
+
+
+LINK_HOWS = ["sibling-value", "sibling-error", "batch-set", "batch-cancel", "batch-flush"]
+LINK_TARGETS = ["item-cancel", "item-cancel0", "batch-cancel", "batch-cancel0"]
+
+
+def link_cases(tier):
+    """family futsubs/link (third-audit repair, seeded change C10-12): a batch of 2-4 items is CANCELLED while an on_computed
+    handler of one item (any position) re-enters the library during the batch's completion sweep (BatchBase._computed): it
+    completes a still pending SIBLING item (value / error), tries to complete / flush the batch itself, or cancels it.  The
+    watched future (an item that is not the handler's destination, or the batch) must still be completed and notified exactly
+    once.  (The sweep after a raising flush / a flush that leaves items unset with such handlers is C11's model: `link`
+    handlers of Lib/Batching.lean.)  Systematic: every cancel target x every action x 2-4 items x every ordered pair
+    (source item, destination item) x watched item first / last."""
+    rng = random.Random(1012)      # subscriber lists only; the dimensions below are enumerated
+    res = []
+    for target in LINK_TARGETS:
+        for how in LINK_HOWS:
+            for n in (2, 3, 4):
+                for src in range(n):
+                    for dst in range(n):
+                        if src == dst:
+                            continue
+                        for which in ([0] if target.startswith("batch-") else sorted({0, n - 1} - {dst})):
+                            c = subs_case(rng, target, 1 + (src + dst) % 3, thread="same")
+                            c.update({"nitems": n, "which": which, "link": [how, src, dst], "family": "link",
+                                      "prior": False, "opts": [], "weak": False})
+                            c.pop("optswhen", None)
+                            res.append(c)
+    return res
 
 
 def corpus():
@@ -467,7 +526,7 @@ def plan(tier, seed):
               for subs in ([0], [1, 0], [0, 1, 0]) for ctx in ("none", "scoped", "custom")
               for opts in (None, ["COLLECT_PERF_STATS"], ["DUMP_COMPUTED", "COLLECT_PERF_STATS"]) if ctx != "none" or opts]
     # every kind x every pair of subscriber behaviours (+ a plain third subscriber) x completion, reset, second completion
-    behs = [["good"], ["raising"], ["raisingBad"], ["oneShot"], ["unsub", 1], ["unsub", 2], ["unsub", 3], ["resub", 500001],
+    behs = [["good"], ["raising"], ["raisingBad"], ["raisingWorse"], ["oneShot"], ["unsub", 1], ["unsub", 2], ["unsub", 3], ["resub", 500001],
             ["reenter", "val", 3], ["reenter", "err", 1]]
     for k in KINDS:
         if k in ("const", "error") and tier == "quick":
@@ -495,6 +554,7 @@ def plan(tier, seed):
                 cases.append(subs_case(rng, target, size, thread=thread))
             for when in OPTSWHEN[1:]:
                 cases.append(subs_case(rng, target, size, optswhen=when))
+    cases += link_cases(tier)
     cases += [gen_case(rng) for _ in range(n)]
     return cases
 
@@ -676,11 +736,13 @@ def signature(case, v):
         return "futcopy/%s/%s" % (case["what"], v["spec"])
     if case.get("special"):
         return "suspended/%s" % v["spec"]
-    if "subscriber-exception-escapes@" in v["spec"]:
-        # ONE defect (futures.py: repr(e) inside FutureBase._computed's except clause), whichever kind of future and
-        # whichever operation completes it; the Lean observer gives this name only when the subscribers it tracked
-        # predict the escape and everything else about the observation is right
-        return "subscriber-exception-escapes"
+    if "subscriber-repr-error-escapes@" in v["spec"]:
+        # ONE behaviour (futures.py: safe_repr(e) inside FutureBase._computed's except clause raises when formatting what
+        # repr(e) raised raises), whichever kind of future and whichever operation completes it; the Lean observer gives
+        # this name only when the subscribers it tracked predict the escape (first exception of the round comes from a
+        # raisingWorse subscriber), the completer raised exactly that exception and everything else about the observation
+        # is right; main.py additionally requires CORR=ok
+        return "subscriber-repr-error-escapes"
     return "%s/%s" % (case["kind"][0], v["spec"])
 
 
@@ -735,6 +797,33 @@ class SubBadErr(Exception):
 
     def __repr__(self):
         raise self.env.sub_repr_err
+
+    __str__ = __repr__
+
+
+class ReprErrBadStr(Exception):
+    """what repr() of a `raisingWorse` subscriber's exception raises: an Exception whose str() raises (qcore.safe_repr formats
+    it with %s inside its own except clause)"""
+
+    def __init__(self, env):
+        Exception.__init__(self)
+        self.env = env
+
+    def __str__(self):
+        raise self.env.sub_repr_err
+
+    __repr__ = __str__
+
+
+class SubWorseErr(Exception):
+    """what a `raisingWorse` subscriber raises: repr() / str() raise an Exception that cannot be formatted either"""
+
+    def __init__(self, env):
+        Exception.__init__(self)
+        self.env = env
+
+    def __repr__(self):
+        raise ReprErrBadStr(self.env)
 
     __str__ = __repr__
 
@@ -870,7 +959,7 @@ class Env(object):
         if e is self.cancel_err and e is not None:
             return "(raised user 7)"
         if e is self.sub_repr_err:
-            return "(raised subRepr)"   # repr() of a subscriber's exception, raised inside FutureBase._computed's except clause
+            return "(raised subRepr)"   # what left safe_repr(subscriber's exception) inside FutureBase._computed's except clause
         if (type(e) is AttributeError and "_id" in str(e)) or e is self.bad_repr_err:
             return "(raised hook)"      # AsyncTask.collect_perf_stats() could not run for the task
         if isinstance(e, self.futures.FutureIsAlreadyComputed):
@@ -904,6 +993,8 @@ class Env(object):
                 raise (RuntimeError, FalsyErr, EqAllErr)[sid % 3]("subscriber %d raises" % sid)
             if kind == "raisingBad":
                 raise SubBadErr(env)
+            if kind == "raisingWorse":
+                raise SubWorseErr(env)
             if kind == "oneShot":
                 f.on_computed.unsubscribe(cb)
             elif kind == "unsub":
@@ -1187,7 +1278,7 @@ def run_case1(case):
     if midflight:
         feats.append("task-completed-under-profiling-switched-on-in-flight" + ("" if stats_ok else "/perf-stats-step-fails"))
     if any("(raised subRepr)" in ln for ln in lines):
-        feats.append("completer-got-the-exception-of-repr(subscriber's exception)")
+        feats.append("completer-got-the-exception-of-safe_repr(subscriber's exception)")
     if badarg:
         feats.append("task-with-unprintable-argument" + ("/completed-under-profiling" if perf_seen and completions else ""))
     if env.weak:
@@ -1288,6 +1379,26 @@ def run_futsubs(case):
             batch = cur[0]
             items = [I() for _ in range(nitems)]
             marked[0] = items[which]
+            if case.get("link"):
+                # a handler of item `src` re-enters the library while the batch completes its items (family link)
+                how, src, dst = case["link"]
+                sib = items[dst % nitems]
+
+                def link_handler(_f):
+                    try:
+                        if how == "sibling-value":
+                            sib.set_value(("fallback", dst))
+                        elif how == "sibling-error":
+                            sib.set_error(errs[2])
+                        elif how == "batch-set":
+                            batch.set_value(None)
+                        elif how == "batch-cancel":
+                            batch.cancel()
+                        else:
+                            batch.flush()
+                    except BaseException:  # noqa  (a refused second completion: FutureIsAlreadyComputed / BatchingError)
+                        pass
+                items[src % nitems].on_computed.subscribe(link_handler)
             if target.startswith("item-"):
                 fut = items[which]
                 if target == "item-value":
